@@ -55,11 +55,11 @@ func TestC10_KeyExchangeSweep(t *testing.T) {
 }
 
 func TestC10_KeyExchangeMix(t *testing.T) {
-	q := 60
+	q, th := 60, 1500
 	if h.Cfg == "purego" {
-		q = 12
+		q, th = 12, 400
 	}
-	h.Prop(t, h.P{Name: "kx-mix", Quick: q, Thorough: 1500}, func(t *rapid.T) kxCase {
+	h.Prop(t, h.P{Name: "kx-mix", Quick: q, Thorough: th}, func(t *rapid.T) kxCase {
 		return kxCase{
 			LenA: genUidLen(t) % 400, LenB: genUidLen(t) % 400,
 			Klen:    genLen(t) % 700,
